@@ -51,6 +51,10 @@ func runC05(c *Ctx) {
 	c11SplitArithmetic(c, "C05.10")
 	c11SiblingLinks(c, "C05.10l")
 	ruleStripQuotes(c, "C05.11")
+	ruleCurOncePerNext(c, "C05.12")
+	ruleExactCompare(c, "C05.13")
+	c08Literals(c, "C05.14")
+	ruleNoArithmeticOnStatementInts(c, "C05.15")
 }
 
 // ---- C05.1 ---------------------------------------------------------------------
@@ -755,7 +759,17 @@ func c05LimitOffset(c *Ctx, rule string) {
 				return true
 			}
 			for _, call := range f.Calls(ifs.Body, false, "engine."+strings.ToLower(kw)) {
-				if len(call.Args) == 2 && strings.HasSuffix(exprKey(f.stripConv(call.Args[0])), "."+kw) {
+				if len(call.Args) != 2 {
+					continue
+				}
+				arg := f.stripConv(call.Args[0])
+				if id, ok := ast.Unparen(arg).(*ast.Ident); ok {
+					// the value carried through a local
+					if rhs, _, ok := f.definedBy(f.Decl.Body, f.ObjOf(id)); ok {
+						arg = f.stripConv(rhs)
+					}
+				}
+				if strings.HasSuffix(exprKey(arg), "."+kw) {
 					okPair = true
 				}
 			}
@@ -866,6 +880,7 @@ func runC06(c *Ctx) {
 	c05BoolOps(c, "C06.5")
 	ruleJoinNoEarlyReturn(c, "C06.6")
 	ruleLookupKeys(c, "C06.7")
+	c05Layering(c, "C06.8")
 }
 
 func c06JoinMapping(c *Ctx, rule string) {
@@ -1250,6 +1265,9 @@ func runC07(c *Ctx) {
 	ruleLookupKeys(c, "C07.6")
 	c05FreshRows(c, "C07.7")
 	c08FreshDecodeTarget(c, "C07.8")
+	ruleJoinNoEarlyReturn(c, "C07.9")
+	c.Rule("C07.10", "values aggregated are the values stored: the row codec is symmetric per column type (C08.4)")
+	checkCodecPair(c, "C07.10", "storage.(*Tuple).Encode", "storage.(*Tuple).Decode")
 }
 
 func c07Rounding(c *Ctx, rule string) {
@@ -1329,7 +1347,7 @@ func c07Rounding(c *Ctx, rule string) {
 }
 
 func c07GroupKey(c *Ctx, rule string) {
-	c.Rule(rule, "two rows fall in the same group only if all grouping values are equal: the group key is built from self-delimiting fragments (a %%q or %%#v rendering, which quotes strings, followed by a constant delimiter), and the per-aggregate counter key contains the group key plus something that identifies the select column (its index or its full column reference, not just the bare column name)")
+	c.Rule(rule, "two rows fall in the same group only if all grouping values are equal: the group key is built from self-delimiting fragments (a %%#v rendering, which quotes strings and prints integers, booleans and NULL distinctly, followed by a constant delimiter), and the per-aggregate counter key contains the group key plus something that identifies the select column (its index or its full column reference, not just the bare column name)")
 	f := c.NeedFunc(rule, "engine.aggregateRows")
 	if f == nil {
 		return
@@ -1351,7 +1369,7 @@ func c07GroupKey(c *Ctx, rule string) {
 			if cv := f.constOf(sp[0].Args[0]); cv != nil {
 				format = cv.ExactString()
 			}
-			quoting := strings.Contains(format, "%q") || strings.Contains(format, "%#v")
+			quoting := strings.Contains(format, "%#v") // %q would render integers as character literals
 			rest := strings.NewReplacer("%q", "", "%#v", "", "%v", "", "%s", "", "%d", "", "\"", "").Replace(format)
 			delimited := len(rest) > 0
 			switch {
